@@ -60,7 +60,9 @@ class C05(Check):
                 'sizes': [rng.pick([0, 1, 63, 64, 65, 0xA00, rng.randint(0, 300)]) for _ in range(3)],
                 'ticket_size': rng.pick([0x350, 0x350, 0x2AC, 0x2B0 + rng.randrange(64)]),
                 'start': rng.pick([0, 0, 0x40, 0x1234]), 'bad_index': rng.pick([None, None, None, 5, 0x20]),
-                'tamper': rng.pick([None, None, None, 'magic', 'tmd'])}
+                'tamper': rng.pick([None, None, None, 'magic', 'tmd']),
+                # contents that are not NCCHs (sizes: every multiple of 16, aligned to 64 or not), read with load_contents=False
+                'raw': [rng.pick([0x10, 0x30, 0x40, 0x50, 0x90, 0x1F0, 0x200, 0x230]) for _ in idxs] if rng.chance(0.3) else None}
 
     def run_case(self, case, drv):
         from pyctr.type.cia import CIAReader, CIASection
@@ -74,7 +76,11 @@ class C05(Check):
         prog = int.from_bytes(tid, 'big')
         titlekey = rng.rbytes(16)
         ncchs, descs, infos = {}, {}, {}
-        for c in case['idxs']:
+        raw = case.get('raw')
+        for k, c in enumerate(case['idxs']):
+            if raw:
+                ncchs[c], descs[c], infos[c] = rng.rbytes(raw[k]), {'exefs_files': []}, None
+                continue
             d = gen_ncch_desc(rng, prog)
             d['rng'] = Rng(case['seed'] + c)
             img, info = ncchbuild.build(d, dev)
@@ -103,11 +109,11 @@ class C05(Check):
         eng = e.CryptoEngine(dev=dev)
         mon, key = [], None
         outs, models = [], []
-        info_d = {'n:%d' % len(case['idxs']): 1, 'dev:%d' % dev: 1, 'ck:%d' % case['ck']: 1,
+        info_d = {'contents:%s' % ('raw' if case.get('raw') else 'ncch'): 1, 'n:%d' % len(case['idxs']): 1, 'dev:%d' % dev: 1, 'ck:%d' % case['ck']: 1,
                   'tamper:%s' % case['tamper']: 1, 'badidx:%s' % bool(extra): 1}
         rd = None
         try:
-            rd = CIAReader(base, crypto=eng, dev=dev, closefd=False)
+            rd = CIAReader(base, crypto=eng, dev=dev, closefd=False, load_contents=not raw)
             secs = ','.join(f'{int(s)}:{r.offset}:{r.size}:{(r.iv.hex() if r.iv else "none")}' for s, r in rd.sections.items())
             tk = eng.key_normal[0x40].hex() if 0x40 in eng.key_normal else 'none'
             outs.append(f'ok total={rd.total_size} tk={tk} tid={rd.tmd.title_id} sections={secs} info=' +
@@ -186,7 +192,7 @@ class C05(Check):
                 if got != exp and not mon:
                     mon.append(f'content {c}: nested ExeFS file {n!r} differs from the packed file')
                     key = 'cia.isolation'
-            for c in case['present']:
+            for c in ([] if raw else case['present']):
                 nested = rd.contents[c]
                 outs.append(render_ncch(nested, nested._crypto))
                 m = drv.ask(('ncch-open', ncchs[c], 0, 'none', 0, int(dev), blob))
